@@ -658,16 +658,26 @@ func neighbours(ch *chain, idx int) []int {
 	return nbs
 }
 
+// wireCopy returns h as a node holds it: decoded from its canonical encoding. If the implementation
+// cannot decode the encoding of an honest header (only a defective tree does that) a deep copy is used
+// instead and the failure is reported as a violation at the end of the run.
+var (
+	wireCopyFailures atomic.Int64
+	wireCopyFirstErr atomic.Value
+)
+
 func wireCopy(h *EH) *EH {
-	b, err := h.MarshalBinary()
-	if err != nil {
-		panic(err)
+	b, err := encBinary(h)
+	if err == nil {
+		var g *EH
+		if g, err = decBinary(b); err == nil {
+			return g
+		}
 	}
-	g, err := header.UnmarshalExtendedHeader(b)
-	if err != nil {
-		panic(err)
+	if wireCopyFailures.Add(1) == 1 {
+		wireCopyFirstErr.Store(fmt.Sprintf("height %d: %v", h.Height(), err))
 	}
-	return g
+	return cloneEH(h)
 }
 
 var curTier = "quick"
@@ -988,6 +998,10 @@ func TestVerifC16(t *testing.T) {
 		exhaustive = false
 	}
 
+	if n := wireCopyFailures.Load(); n > 0 {
+		rep.Violation("C16/reencode/binary/honest-header-not-decodable",
+			fmt.Sprintf("the canonical encoding of an honest header was rejected by UnmarshalBinary %d times during the run (first: %v)", n, wireCopyFirstErr.Load()), map[string]any{"tier": curTier})
+	}
 	if len(total.libDisagree) > 0 {
 		rep.Infra(fmt.Sprintf("independent oracle and library encodings disagree (harness error, not a verdict): %v", total.libDisagree))
 		t.Fail()
